@@ -42,6 +42,23 @@ def run(ctx):
             m.clone()
         except Exception:
             pass
+        # values beyond the nominal ranges, as a lenient load lets them through (assigned, read back, written, loaded)
+        from rv.errors import override_raise_controller_value_errors
+        for c in st["ctls"]:
+            if c["kind"] in ("dep", "range"):
+                units = [u for u, _, _ in c["ranges"]] if c["kind"] == "dep" else [None]
+                for u in units[:6]:
+                    try:
+                        m2 = cls()
+                        if u is not None:
+                            setattr(m2, st["ctls"][c["dep"] - 1]["name"], u)
+                        hi = next((b for uu, a, b in c["ranges"] if uu == u), c["max"]) if c["kind"] == "dep" else c["max"]
+                        with override_raise_controller_value_errors(False):
+                            setattr(m2, c["name"], hi + 1000)
+                            m2.get_raw(c["name"])
+                            fmt.load(api.Synth(m2).read())
+                    except Exception:
+                        pass
     for name, data in fmt.fixtures():
         fmt.load(data)
     # files naming a type in another spelling, or an unknown type (loading may refuse them; the registry must not learn them)
